@@ -37,7 +37,7 @@ func runC14(opt *Options) int {
 	// called with the arguments in the declared order (values and call arguments checked symbolically)
 	var roleConvs []*layerb.Conv
 	for _, c := range layerb.FamilyCustom(opt.Thorough()) {
-		for _, leaf := range []string{"custom/extend_ctx/", "custom/extend_ctx_first/", "custom/extend_regex_doc_ctx/", "custom/extend_conv/", "custom/extend_conv_last/", "custom/extend_conv_middle/", "/fieldfunc/methodctx"} {
+		for _, leaf := range []string{"custom/extend_ctx/", "custom/extend_ctx_first/", "custom/extend_regex_doc_ctx/", "custom/extend_conv/", "custom/extend_conv_last/", "custom/extend_conv_middle/", "custom/extend_conv_regexmatch/", "/fieldfunc/methodctx"} {
 			if strings.Contains(c.ID, leaf) {
 				roleConvs = append(roleConvs, c)
 			}
@@ -47,7 +47,18 @@ func runC14(opt *Options) int {
 	if rc2 := lb2.finish(lb2.run(), "translation_validation", nil); rc2 != 0 && lbrc == 0 {
 		lbrc = rc2
 	}
-	rc := lr.finish(lr.run(), map[string]interface{}{"parameter_role_programs": lb2.LastCov, "accept_reject_programs": map[string]interface{}{
+	// third leg: update signatures keep their meaning next to custom functions of the same type pair
+	var updConvs []*layerb.Conv
+	for _, c := range layerb.FamilyUpdate(false) {
+		if strings.Contains(c.ID, "update/with_same_pair_extend") || strings.Contains(c.ID, "update/plain1/c0") {
+			updConvs = append(updConvs, c)
+		}
+	}
+	lb3 := &lbRun{Opt: opt, Convs: updConvs, Check: layerb.CheckUpdate, EOpt: layerb.ExploreOpt{TrackWrites: true}, Bounds: layerb.Bounds{MaxSlice: 1, MaxMap: 1, RecDepth: 1}, NoEvidence: true, Rule: lbRule, Assume: lbAssume, CaseBase: 400}
+	if rc3 := lb3.finish(lb3.run(), "translation_validation", nil); rc3 != 0 && lbrc == 0 {
+		lbrc = rc3
+	}
+	rc := lr.finish(lr.run(), map[string]interface{}{"update_signature_programs": lb3.LastCov, "parameter_role_programs": lb2.LastCov, "accept_reject_programs": map[string]interface{}{
 		"programs": len(lb.Convs), "note": "whole runs of the goverter binary: unexported default / map|FUNC / extend functions versus the output package, declarations with a wrong shape; rejected-but-valid and accepted-but-invalid programs are violations; emitted code of accepted programs is type-checked",
 		"rejected_expected_success": lb.LastCov["generation_rejected_expected_success"], "accepted_expected_failure": lb.LastCov["generation_accepted_expected_failure"]}})
 	if rc == 0 {
